@@ -97,6 +97,11 @@ def kernel_rounding():
             "timeout_ms": {"quick": 60000, "thorough": 120000}}
 
 
+def data_step_run():
+    # the four data-module step harnesses (they carry C16, C08 and C09 obligations)
+    return {"module": "data", "pkg": "./server", "harness": "C16_.*", "bounds": DATA_BOUNDS}
+
+
 STEP_TECH = "one-step inductive invariant over all message handlers: go/ssa symbolic execution of the real handlers on model stores with arbitrary pre-state + SMT (z3 5.1 / z3 4.8 / cvc5)"
 
 PROPS = {
@@ -108,11 +113,12 @@ PROPS = {
     "C06": {"title": "escrow equals open sell orders", "runs": step_runs(), "technique": STEP_TECH},
     "C07": {"title": "BuyDirect settles exactly", "runs": [kernel_cost(), kernel_rounding()] + step_runs(),
             "technique": "go/ssa symbolic execution of the cost/fee kernel against exact rationals + SMT (non-linear real/integer arithmetic), plus the BuyDirect step harness"},
-    "C08": {"title": "authorisation and sealed batches", "runs": step_runs(), "technique": STEP_TECH + "; role predicate on the pre-state for every successful path"},
+    "C08": {"title": "authorisation and sealed batches", "runs": step_runs() + [data_step_run()],
+            "technique": STEP_TECH + "; role predicate on the pre-state for every successful path (ecocredit services and the data service)"},
     "C09": {"title": "genesis export/validate/re-import (state validators are handler invariants; ValidateGenesis accepts every invariant state)",
             "runs": step_runs() + [{"module": "ecocredit", "pkg": "./genesis", "harness": "C09_.*", "bounds": GENESIS_BOUNDS,
-                                    "budget_s": {"quick": 1500, "thorough": 7200}}],
-            "technique": STEP_TECH + "; the real Validate() of each state type (merged to one formula) asserted on every written row"},
+                                    "budget_s": {"quick": 1500, "thorough": 7200}}, data_step_run()],
+            "technique": STEP_TECH + "; the real Validate() of each state type (merged to one formula) asserted on every written row; data module: the real genesis.validateMsg on every row the four data handlers write"},
     "C10": {"title": "handler-level determinism and statelessness (self-composition)",
             "runs": [{"module": "ecocredit", "pkg": "./base/keeper", "harness": "C10_.*", "bounds": STEP_BOUNDS_L1},
                      {"module": "ecocredit", "pkg": "./basket/keeper", "harness": "C10_.*", "bounds": BASKET_BOUNDS_L1,
